@@ -1145,19 +1145,24 @@ pub fn build_py_rv(r: &mut Sm, o: &GenOpts) -> Scenario<RealVectorState, RealVec
 }
 
 pub fn build_py_so2(r: &mut Sm, o: &GenOpts) -> Scenario<SO2State, SO2StateSpace> {
-    let mut space = SO2StateSpace::new(None).unwrap();
+    // half of the worlds restrict the angle to an interval (uniform samples are then raw draws from that interval, which
+    // are not in general fixed points of a second normalisation)
+    let bounds: Option<(f64, f64)> = *r.pick(&[None, None, Some((-1.0, 2.0)), Some((-2.5, 2.5))]);
+    let mut space = SO2StateSpace::new(bounds).unwrap();
     let fr = *r.pick(&[0.05, 0.05, 0.03125, 0.125, 0.5, 4.0]);
     space.set_longest_valid_segment_fraction(fr);
+    let (lo, hi) = bounds.unwrap_or((-3.0, 3.0));
     let kit = PyKit {
         flat: Arc::new(|s: &SO2State| vec![s.value]),
         coords: Arc::new(|s: &SO2State| vec![s.value]),
-        mk: Arc::new(|r: &mut Sm| {
-            let v = (r.range(-3.0, 3.0) * 64.0).round() / 64.0;
+        mk: Arc::new(move |r: &mut Sm| {
+            let v = (r.range(lo + 0.1, hi - 0.1) * 64.0).round() / 64.0;
             let s = SO2State::new(v);
             (s.clone(), vec![v])
         }),
     };
-    py_world(r, o, "so2", space, J::obj(vec![("bounds", J::Null), ("fractions", hexv(&[fr]))]), PI, kit, 1, -2.5, 2.5, 0.25)
+    let bj = match bounds { Some((a, b)) => hexv(&[a, b]), None => J::Null };
+    py_world(r, o, "so2", space, J::obj(vec![("bounds", bj), ("fractions", hexv(&[fr]))]), PI, kit, 1, lo + 0.5, hi - 0.5, 0.25)
 }
 
 pub fn build_py_so3(r: &mut Sm, o: &GenOpts) -> Scenario<SO3State, SO3StateSpace> {
